@@ -2,7 +2,7 @@
 from .. import common
 from . import loop_common as lc
 
-OWN = {'ret', 'log', 'loop'}
+OWN = {'ret', 'log', 'loop', 'muted'}
 SIG_D16 = ('switch(target, clear_next=True) or switch(<current handle>, clear_current=True): on_switch_in is queued on the '
            'world instance that the loop then discards; the instance that runs never receives it (and the target is loaded twice)')
 
